@@ -42,6 +42,15 @@ def main():
     from rv.ctx import Ctx
 
     ctx = Ctx(pid, shard.get('tier', 'quick'), int(shard.get('seed', 0)), shard)
+    if shard.get('env_variant') == 'logging DEBUG':
+        import logging
+
+        logging.basicConfig(level=logging.DEBUG, handlers=[logging.NullHandler()], force=True)
+        logging.getLogger().setLevel(logging.DEBUG)
+        for name in ('scipp', 'scipp.neutron', 'scippneutron'):
+            logging.getLogger(name).setLevel(logging.DEBUG)
+    if shard.get('env_variant') == 'python -OO' and __debug__:
+        ctx.inconclusive_because('the -OO variant shard did not run with asserts stripped')
     reach = None
     if os.environ.get('RV_REACH', '1') != '0':
         # reach monitor: functions / lines / branch arms of the working tree the workload executed
